@@ -129,7 +129,6 @@ def _apply_model(m, op, files, new_content):
 def _inner(env, fl, pth):
     """plain-Python copy of the extra bin column and of the attributes on inner objects; no HDF5 object survives the call
     (an object reached through an external link keeps the linked file open for as long as it lives)"""
-    import gc
     fh = env.h5.File(fl, "r")
     try:
         g = fh[pth]
@@ -140,7 +139,6 @@ def _inner(env, fl, pth):
         del g
     finally:
         fh.close()
-        gc.collect()
     return has, wv, at, ptag
 
 
@@ -280,7 +278,7 @@ CHECKS = [
               "== model, recognition true exactly on model paths and False (not an error) elsewhere, occupied destinations refused, unrelated attributes kept",
           bounds=dict(quick="all sequences of 2 operations out of 14 operation instances, collection contents symbolic", thorough="all sequences of 3"),
           stubs=("E3 in-memory h5py model: links, Group.copy, file modes, refusal of truncating an open file; every explored path is replayed on real h5py",),
-          outside=("operations that would leave a dangling soft/external link are excluded",), timeout=3400, split_depth=4),
+          outside=("operations that would leave a dangling soft/external link are excluded",), timeout=3400, split_depth=9),
 ]
 
 MUTANTS = [
